@@ -8,6 +8,7 @@ import (
 	"go/constant"
 	"go/token"
 	"go/types"
+	"strings"
 
 	"golang.org/x/tools/go/packages"
 	"golang.org/x/tools/go/ssa"
@@ -259,6 +260,23 @@ func (k *c07k) p6(fn *ssa.Function, ups []*ssa.MapUpdate, limit, exemptC int64) 
 // down through parameters of in-package functions that are only called statically.
 func (k *c07k) statusIsEnum(v ssa.Value, cst constant.Value, want int64, depth int) c07v {
 	v = an.Resolve(v)
+	// the result of a classifier of the status (`policy, ok := retentionOf(status)`)
+	if cv, is := k.classifiesStatus(v, cst, want); is {
+		return cv
+	}
+	// a field of a parameter object (`b.policy`): every value stored into that field
+	if _, isParam := v.(*ssa.Parameter); !isParam && depth <= 3 {
+		if key, _, isField := an.FieldOf(v); isField && !strings.HasPrefix(key, memdb+".") {
+			vals := k.fieldStores(key)
+			if len(vals) > 0 {
+				out := c07Ok()
+				for _, sv := range vals {
+					out = out.and(k.statusIsEnum(sv, cst, want, depth+1))
+				}
+				return out
+			}
+		}
+	}
 	switch x := v.(type) {
 	case *ssa.Parameter:
 		sites, closed := k.ix.Callers(x.Parent())
